@@ -41,6 +41,16 @@ func c13Pool(kind string) []lexeme {
 		p = append(p, lx(tokenizers.Symbol, "<>", "<=", ">=", "<", ">", "=", "+", "*", "(", ")", ",", "/", "!", ";", "-", ".", "{", "%", "&", "^")...)
 		return p
 	}
+	if kind == "expression+keywords-edited" {
+		// the exported keyword list is replaced AFTER the tokenizer was built and used: LIKE is no keyword
+		// any more, BETWEEN is one (the list in force is the one at the time of tokenizing)
+		p = append(p, lx(tokenizers.Word, "like", "LIKE", "Like", "abc", "betweens")...)
+		p = append(p, lx(tokenizers.Keyword, "between", "BETWEEN", "Between", "AND", "or", "null")...)
+		p = append(p, lx(tokenizers.Integer, "1")...)
+		p = append(p, lx(tokenizers.Whitespace, " ")...)
+		p = append(p, lx(tokenizers.Symbol, "+", "(")...)
+		return p
+	}
 	if kind == "generic+latesymbols" {
 		// further symbols registered in two phases, the tokenizer used in between (c13New)
 		p = append(p, lx(tokenizers.Word, "abc", "y")...)
@@ -189,6 +199,9 @@ func c13New(kind string) tokenizers.ITokenizer {
 		// a symbol whose first character equals '<' modulo 256, declared a symbol character first
 		g.SetCharacterState(0x223c, 0x223c, g.SymbolState())
 		g.SymbolState().Add("\u223c=", tokenizers.Symbol)
+	case "expression+keywords-edited":
+		// built and used under the default keyword list
+		fw.Try(func() { t.TokenizeBuffer("a like b and 1 between") })
 	case "expression+cyrillic":
 		e := t.(*calctok.ExpressionTokenizer)
 		e.SetCharacterState(0x0400, 0x04ff, e.WordState())
@@ -254,6 +267,20 @@ func c13Run(c *fw.Ctx, kind string, pool []lexeme, seq []int, mode int) {
 		want = seg
 	}
 	in := text.String()
+	if kind == "expression+keywords-edited" {
+		saved := calctok.Keywords
+		edited := []string{"BETWEEN"}
+		for _, k := range saved {
+			if k != "LIKE" {
+				edited = append(edited, k)
+			}
+		}
+		if c13Tok[kind] == nil {
+			c13Tok[kind] = c13New(kind) // built before the list is replaced
+		}
+		calctok.Keywords = edited
+		defer func() { calctok.Keywords = saved }()
+	}
 	t := c13Tok[kind]
 	if t == nil {
 		t = c13New(kind)
@@ -330,7 +357,7 @@ func init() {
 				maxLen = 4
 			}
 			sp := []fw.Space{}
-			for _, kind := range []string{"generic", "expression", "generic+symrange", "expression+cyrillic", "generic+latesymbols"} {
+			for _, kind := range []string{"generic", "expression", "generic+symrange", "expression+cyrillic", "generic+latesymbols", "expression+keywords-edited"} {
 				kind := kind
 				pool := c13Pool(kind)
 				for mode := 0; mode < 2; mode++ {
